@@ -276,6 +276,10 @@ func windowShapes(r *rand.Rand) (*TableSpec, *TableSpec) {
 
 func runC04(ctx *Ctx) {
 	r := ctx.R
+	if ctx.Idx%12 == 11 {
+		runC04CLI(ctx)
+		return
+	}
 	if r.Intn(4) == 0 {
 		s1, s2 := windowShapes(r)
 		c04Case(ctx, s1, s2, IngestCfg{}, IngestCfg{}, "mode=window-shapes")
@@ -310,6 +314,11 @@ func corpusC04(ctx *Ctx, op string, raw json.RawMessage) {
 		panic(err)
 	}
 	if in.S1 == nil || in.S2 == nil {
+		return
+	}
+	if op == "diff-cli" {
+		ci := &c04CLIInput{S1: in.S1, S2: in.S2, New: hxRows(in.S1.Rows), Old: hxRows(in.S2.Rows)}
+		ctx.Emit("diff-cli", ci, c04CLIRun(in.S1, in.S2), true, "cli", "corpus")
 		return
 	}
 	c04Case(ctx, in.S1, in.S2, IngestCfg{}, IngestCfg{}, "corpus")
